@@ -270,6 +270,10 @@ def handle (op : String) (inp : Json) : Json :=
   | "nilpar" =>
     let n := jnat inp "n"; let base := jnat inp "base"
     jobj [("results", resultsJ (parallelizeAlone (base + ·) n))]
+  | "defaultpool" =>
+    -- a pool created with a non-positive size has workers whatever the CPU allowance: same answers as any pool
+    let n := jnat inp "n"; let base := jnat inp "base"
+    jobj [("returned", true), ("results", resultsJ (parallelizeAlone (base + ·) n)), ("searchLen", n), ("searchNonNil", n)]
   | "nilsearch" =>
     let answers := (jarr inp "answers").map fun x => if x.isNull then none else x.getNat?.toOption
     match searchAlone answers (jnat inp "n") with
